@@ -5,8 +5,10 @@ EXTENDS Integers, Sequences
 
 CONSTANT BB
 
+\* the bits of one byte value, most significant first (a constant table: evaluated once)
+ByteBits == [v \in 0..(2 ^ BB - 1) |-> [i \in 1..BB |-> (v \div (2 ^ (BB - i))) % 2]]
 \* bit j (1-based, MSB first) of byte string s
-SBit(s, j) == (s[(j - 1) \div BB + 1] \div (2 ^ (BB - 1 - ((j - 1) % BB)))) % 2
+SBit(s, j) == ByteBits[s[((j - 1) \div BB) + 1]][((j - 1) % BB) + 1]
 NBits(s)   == BB * Len(s)
 \* the bit sequence of s
 SBits(s)   == [j \in 1..NBits(s) |-> SBit(s, j)]
